@@ -205,15 +205,16 @@ def _proj(text):
 
 
 def _cell_proj(v):
+    """Observed table cell as a record: ids (token text), lit (other text), val (typed value), empty = ids []."""
     if isinstance(v, str):
         p = project_text(v)
         rest = "".join(p["residue"]).strip()
         if p["ids"] and not _ALNUM.search(rest):
-            return p["ids"]
-        return ["lit", v] if v != "" else []
+            return {"k": "ids", "v": p["ids"], "s": ""}
+        return {"k": "lit", "v": [], "s": v[:60]} if v.strip() != "" else {"k": "ids", "v": [], "s": ""}
     if v is None:
-        return []
-    return ["val", type(v).__name__, repr(v)]
+        return {"k": "ids", "v": [], "s": ""}
+    return {"k": "val", "v": [], "s": f"{type(v).__name__}:{v!r}"[:60]}
 
 
 def observe(job):
@@ -248,9 +249,17 @@ def observe(job):
             up["n"] = num if isinstance(num, int) and not isinstance(num, bool) else -1
             hp = getattr(md, "heading_path", None) if not isinstance(md, dict) else md.get("heading_path")
             up["heads"] = _proj(" ".join(hp))["obs"] if isinstance(hp, (list, tuple)) else []
-            up["ntables"] = len(u.get_tables())
+            utabs = u.get_tables()
+            up["ntables"] = len(utabs)
+            up["tbl"] = [i for t in utabs for row in t.get_table() for c in row
+                         for i in (project_text(c)["ids"] if isinstance(c, str) else [])]
             up["nimages"] = len(u.get_images())
+            up["raw"] = u.get_text()
             units.append(up)
+        full = r.get_full_text()
+        out["joinok"] = bool(full == "\n".join(u["raw"] for u in units).strip())
+        for u in units:
+            del u["raw"]
         out["units"] = units
         tables = []
         for t in r.iterate_tables():
